@@ -605,3 +605,17 @@ for _pid, _spec in PROPS.items():
     if _pid in TIE_CODE:
         _spec["tie_code"] = sorted(set(_T_BASE + TIE_CODE[_pid]), key=(_T_BASE + _T_ALL).index)
         _spec["lean_targets"] = list(_spec.get("lean_targets", [])) + ["Kanal.TieCode"]
+
+# further theorem files (each ends with its own `#print axioms` audit)
+EXTRA_FILES = {
+    "C06": ["Kanal/Props/C06Fair.lean", "Kanal/Props/C06Chan.lean", "Kanal/Props/C06Async.lean",    # eventual completion under weak fairness
+            "Kanal/TieProto.lean", "Kanal/ProtoSim.lean"],
+    "C18": ["Kanal/Bridge.lean"],                                                                  # Fine read sequentially = Spec.step
+    "C03": ["Kanal/Sections.lean", "Kanal/SpecSections.lean"],
+    # translated signal.rs / mutex.rs / spin_cond conform to SigM / MutexM (TieProto), and conformance is adequate (ProtoSim)
+    "C07": ["Kanal/TieProto.lean", "Kanal/ProtoSim.lean"],
+    "C17": ["Kanal/TieProto.lean", "Kanal/ProtoSimMutex.lean"],   # interleaving machine: the logical state moves by whole critical sections = Chan functions
+}
+for _pid, _files in EXTRA_FILES.items():
+    PROPS[_pid]["props_files"] = list(PROPS[_pid]["props_files"]) + _files
+    PROPS[_pid]["lean_targets"] = list(PROPS[_pid].get("lean_targets", [])) + [f[:-5].replace("/", ".") for f in _files]
